@@ -366,5 +366,17 @@ pub fn coinciding() -> Vec<Value> {
         Value::Int(-7),
         Value::Float(2.5),
         dec(25, 1),
+        // text that coincides with a value of another type
+        s("2015-07-30T03:26:13Z"),
+        dt(1438226773, 0),
+        s("1.5"),
+        Value::Float(1.5),
+        s("i1"),
+        s("PT1S"),
+        // range edges (a result type may only change through an explicit cast, also at the edges)
+        Value::Int(i128::MIN),
+        Value::Int(-1),
+        Value::Int(i128::MAX),
+        Value::Float(f64::NAN),
     ]
 }
